@@ -85,6 +85,12 @@ def programs(tier, rng):
         out.append(("cd-sequence", p.replace("out/g", "nogrant"), "?"))
     for tmpl, tgt in itertools.product(TOOLS, TOOL_TARGETS):
         out.append(("tool:" + tmpl.split()[0 if not tmpl.startswith("cat f |") else 3], tmpl.replace("{T}", tgt), "?"))
+    # a directory change in every slot of every compound before / beside a relative write (ground truth decides)
+    for label, text in bx.cd_write_programs(tier, rng):
+        out.append((label, text, "?"))
+    # every ordered pair of redirections on one node, the same target twice included
+    for label, text, _singles in bx.redirect_pairs(tier):
+        out.append((label, text, "?"))
     # two redirects on one node, granted + ungranted in both orders
     for a, b in itertools.permutations(["> out/g", ">> nogrant", "2> secret/s", "3>&1", "< f", ">| out/h", "{v}> nogrant"], 2):
         out.append(("two-redirects", f"ls {a} {b}", "?"))
@@ -165,7 +171,34 @@ def run(tier, seed, replay=None):
                                            "signature_text": text.replace(cwd, "@J@")})
             if idx % 41 == 0:
                 out.sample({"position": pos, "program": text, "verdict": impl})
+        from . import funcs
+        funcs.run_ties(out, model, ["strip_fd_prefix"], tier, rng, an)
         model.close()
+        # the two hypotheses of theorem C02_cd_tracking_sound about the resolution oracle, checked on the real
+        # _resolve_cd_target: absolute / home targets lead to the same place from anywhere; a relative target
+        # keeps the unknown directory unknown (true up to the depth of the placeholder, 64 levels)
+        unk = str(an._UNKNOWN_CWD)
+        unk_root = "/".join(unk.split("/")[:3])
+        comps = ["sub", "..", ".", "a b", "-", "x/y", "../..", "~", "", "é"]
+        tgts = set(comps) | {"/" + "/".join(c) for c in itertools.product(comps[:6], repeat=2)} | {"/".join(c) for c in itertools.product(comps[:7], repeat=3)} \
+            | {"~/" + c for c in comps} | {"../" * k + "etc" for k in range(0, 40)} | {"/", "//", "/..", "~root", "~/..", "/tmp/../etc"}
+        nh = 0
+        for tgt in sorted(tgts):
+            if not tgt:
+                continue
+            nh += 1
+            try:
+                if tgt.startswith(("/", "~")):
+                    r = {str(an._resolve_cd_target(tgt, Path(d))) for d in (cwd, "/", unk, "/tmp/x/y")}
+                    if len(r) != 1:
+                        out.disagreements.append({"correspondence": "hypothesis abs_anywhere of C02_cd_tracking_sound <-> _resolve_cd_target", "target": tgt, "results": sorted(r)})
+                else:
+                    r = str(an._resolve_cd_target(tgt, Path(unk)))
+                    if not r.startswith(unk_root):
+                        out.disagreements.append({"correspondence": "hypothesis unknown_stays of C02_cd_tracking_sound <-> _resolve_cd_target", "target": tgt, "result": r})
+            except Exception as e:
+                out.disagreements.append({"correspondence": "hypotheses of C02_cd_tracking_sound <-> _resolve_cd_target", "target": tgt, "exception": repr(e)})
+        out.extra["cd_oracle_hypotheses"] = {"targets_checked": nh, "note": "unknown_stays is checked for relative targets with up to 39 '..' components; the placeholder is 66 levels deep"}
 
         import concurrent.futures as cf
 
